@@ -1,4 +1,4 @@
 SPECIFICATION Spec
-CONSTANTS MaxDim = 9 EmitJson = TRUE
+CONSTANTS MaxDim = 9 EmitJson = TRUE AllUpTo = 3
 INVARIANTS Facts Emit
 CHECK_DEADLOCK FALSE
